@@ -36,8 +36,8 @@ class C16 : public Check
 public:
     const char *id() { return "C16"; }
     const char *opName(int k) { return mName(k); }
-    int quickRuns() { return 8000; }
-    int quickSeconds() { return 60; }
+    int quickRuns() { return 50000; }
+    int quickSeconds() { return 90; }
     int thoroughSeconds() { return 900; }
     const char *rule()
     {
